@@ -599,6 +599,8 @@ class Interp:
     def getattr_value(self, obj, name, node=None):
         if isinstance(obj, Obj):
             if name in obj.fields:
+                if name in getattr(obj, "hidden", ()):
+                    self.ctx.writes.append(("hidden-read", obj, name))
                 return obj.fields[name]
             mem = self.find_member(obj.cls, name)
             if mem is None:
